@@ -305,6 +305,19 @@ func init() {
 		a.IDs = append(a.IDs, [16]byte{0xff, 0xff, 0xff, 0xff, 0xff, 0xff, 0xff, 0xff, 0xff, 0xff, 0xff, 0xff, 0xff, 0xff, 0xff, 0xff})
 	})
 	add("main.ids.known-as-non-recovery", func(a *a2spec) { a.Count = 1 })
+	// the same with the set id left as it was: the other files of the set then carry a main packet of the SAME set that
+	// splits the same ids differently (a reader comparing the two packets element by element meets lists of other lengths)
+	add("main.count=1(stale set id)", func(a *a2spec) { a.Count = 1; a.Reseal = false })
+	add("main.count=0(stale set id)", func(a *a2spec) { a.Count = 0; a.Reseal = false })
+	add("main.count=3(stale set id)", func(a *a2spec) { a.Count = 3; a.Reseal = false })
+	add("main.ids.one-more(stale set id)", func(a *a2spec) { a.IDs = append(a.IDs, [16]byte{0xff, 0xff, 0xff, 0xff, 0xff, 0xff, 0xff, 0xff, 0xff, 0xff, 0xff, 0xff, 0xff, 0xff, 0xff, 0xff}); a.Reseal = false })
+	add("main.ids.one-less(stale set id)", func(a *a2spec) {
+		if len(a.IDs) > 1 {
+			a.IDs = a.IDs[:len(a.IDs)-1]
+			a.Count = uint32(len(a.IDs))
+		}
+		a.Reseal = false
+	})
 	// the recovery set is the file with the LARGER id alone; the smaller id is listed as a non-recovery file behind it
 	// (each of the two lists is sorted): a reader that re-sorts the whole id list changes which file is protected
 	add("main.ids.smaller-id-as-non-recovery", func(a *a2spec) {
